@@ -6,7 +6,8 @@ no-limit raise size is the cumulative commitment (-payoff) in both writers and
 the parser converts it back per street, updating its baseline exactly at a
 street separator; card visibility (ACPC: only the viewer's dealt cards, shown
 cards for all; Pluribus: all seats); payoff field = finishing - starting
-stack; the variant gates.
+stack; the variant gates.  Statements are found by the shape of their terms
+(up to renaming of locals), never by the spelling of a local variable.
 Not decided: equality of the emitted lines with the played hand on concrete
 histories.
 """
@@ -19,76 +20,105 @@ from ..evalstatic import Obj, SEval
 from ..model import AnalysisError, stmt_text, walk_no_nested
 
 LETTERS = {'Folding': 'f', 'CheckingOrCalling': 'c', 'CompletionBettingOrRaisingTo': 'r', 'BoardDealing': '/'}
-CUMULATIVE = T.spec('-state.payoffs[operation.player_index]')
 
 
-def isinstance_arms(fn):
-    """[(classes tuple, If node)] for every ``isinstance(operation, X | Y)`` test"""
+def op_var(fn):
+    """the local that holds the current operation: the most common first argument of isinstance(...)"""
+    count = {}
+    for n in ast.walk(fn):
+        if isinstance(n, ast.Call) and isinstance(n.func, ast.Name) and n.func.id == 'isinstance' and n.args and isinstance(n.args[0], ast.Name):
+            count[n.args[0].id] = count.get(n.args[0].id, 0) + 1
+    if not count:
+        raise AnalysisError(f'{fn.name}: no isinstance dispatch over the operations')
+    return max(count, key=count.get)
+
+
+def state_var(fn):
+    """loop variable of ``for <state> in self``"""
+    for n in ast.walk(fn):
+        if isinstance(n, ast.For) and isinstance(n.iter, ast.Name) and n.iter.id == 'self' and isinstance(n.target, ast.Name):
+            return n.target.id
+    raise AnalysisError(f'{fn.name}: the replay loop `for state in self` vanished')
+
+
+def arms_of(fn, op):
+    """[(classes tuple, If node)] for every test that starts with isinstance(<op>, X | Y)"""
     out = []
     for n in ast.walk(fn):
         if isinstance(n, ast.If):
             t = n.test
+            neg = False
             first = t.values[0] if isinstance(t, ast.BoolOp) and isinstance(t.op, ast.And) else t
+            if isinstance(first, ast.UnaryOp) and isinstance(first.op, ast.Not):
+                first, neg = first.operand, True
             if isinstance(first, ast.Call) and isinstance(first.func, ast.Name) and first.func.id == 'isinstance' \
-                    and isinstance(first.args[0], ast.Name) and first.args[0].id == 'operation':
+                    and isinstance(first.args[0], ast.Name) and first.args[0].id == op:
                 classes = tuple(sorted(x.id for x in ast.walk(first.args[1]) if isinstance(x, ast.Name)))
-                out.append((classes, n, t))
+                out.append((classes, n, n.orelse if neg else n.body, t))
     return out
 
 
-def letters_of(fn, target='actions'):
-    """class -> set of string constants appended to ``actions`` (or assigned to `action`) in its arm"""
-    table = {}
-    for classes, node, test in isinstance_arms(fn):
-        if len(classes) != 1:
-            continue
-        consts = set()
-        cum = []
-        for st in node.body:
-            for n in ast.walk(st):
-                if isinstance(n, (ast.AugAssign, ast.Assign)):
-                    tg = n.target if isinstance(n, ast.AugAssign) else n.targets[0]
-                    if isinstance(tg, ast.Name) and tg.id in ('actions', 'action'):
-                        for c in ast.walk(n.value):
-                            if isinstance(c, ast.Constant) and isinstance(c.value, str):
-                                consts.add(c.value)
-                        if isinstance(n.value, ast.JoinedStr):
-                            for v in n.value.values:
-                                if isinstance(v, ast.FormattedValue):
-                                    cum.append(v.value)
-        table.setdefault(classes[0], (set(), []))
-        table[classes[0]][0].update(consts)
-        table[classes[0]][1].extend(cum)
-    return table
+def arm_body(fn, op, cls):
+    for classes, node, body, test in arms_of(fn, op):
+        if classes == (cls,):
+            return node, body, test
+    return None, [], None
+
+
+def strings_written(body):
+    """string constants assigned / added to any variable in the statements (letters of the action)"""
+    consts = set()
+    fmt = []
+    for st in body:
+        for n in ast.walk(st):
+            if isinstance(n, (ast.AugAssign, ast.Assign)):
+                v = n.value
+                for c in ast.walk(v):
+                    if isinstance(c, ast.Constant) and isinstance(c.value, str) and c.value:
+                        consts.add(c.value)
+                if isinstance(v, ast.JoinedStr):
+                    fmt.append(v)
+    return consts, fmt
 
 
 def run(chk, ctx) -> None:
     prog = ctx.prog
     sev = SEval(prog)
+    m = ctx.m
     hh = prog.cls('HandHistory')
     acpc, plur = hh.methods.get('to_acpc_protocol'), hh.methods.get('to_pluribus_protocol')
     if acpc is None or plur is None:
         raise AnalysisError('protocol writers vanished')
     for fi, name in ((acpc, 'ACPC'), (plur, 'Pluribus')):
-        tab = letters_of(fi.node)
+        op, sv = op_var(fi.node), state_var(fi.node)
         for cls, letter in LETTERS.items():
-            got = tab.get(cls, (set(), []))[0]
-            want = {letter} if cls != 'BoardDealing' else {'/'}
-            got2 = {g for g in got if g}
-            chk.ob('C17.letters', f'{fi.qualname}:{cls}', got2 == want, fi.loc,
-                   f'{name}: the action letter of {cls}', got=sorted(got2), want=sorted(want))
-    # no-limit raise size
-    for fi, name in ((acpc, 'ACPC'), (plur, 'Pluribus')):
-        amounts = []
-        for n in ast.walk(fi.node):
-            if isinstance(n, ast.Assign) and isinstance(n.targets[0], ast.Name) and n.targets[0].id == 'amount':
-                amounts.append(T.norm(n.value))
-        uses = letters_of(fi.node).get('CompletionBettingOrRaisingTo', (set(), []))[1]
-        ok = amounts == [CUMULATIVE] and all(isinstance(u, ast.Name) and u.id == 'amount' for u in uses) and bool(uses)
-        chk.ob('C17.cumulative', f'{fi.qualname}', ok, fi.loc,
+            node, body, _ = arm_body(fi.node, op, cls)
+            consts, fmt = strings_written(body)
+            got = {c for c in consts if len(c) == 1}
+            chk.ob('C17.letters', f'{fi.qualname}:{cls}', got == {letter}, ctx.loc(fi, node) if node else fi.loc,
+                   f'{name}: the action letter of {cls}', got=sorted(got), want=[letter])
+        # no-limit raise size: r<-payoff of the raiser>
+        node, body, _ = arm_body(fi.node, op, 'CompletionBettingOrRaisingTo')
+        cum = T.spec(f'-{sv}.payoffs[{op}.player_index]')
+        sized = False
+        n_fmt = 0
+        for st in body:
+            for n in ast.walk(st):
+                if isinstance(n, ast.JoinedStr) and any(isinstance(v, ast.Constant) and v.value == 'r' for v in n.values[:1]):
+                    n_fmt += 1
+                    vals = [v.value for v in n.values if isinstance(v, ast.FormattedValue)]
+                    if len(vals) == 1:
+                        t = T.norm(vals[0])
+                        if t == cum:
+                            sized = True
+                        elif isinstance(vals[0], ast.Name):
+                            defs = [a for s2 in body for a in ast.walk(s2) if isinstance(a, ast.Assign) and isinstance(a.targets[0], ast.Name)
+                                    and a.targets[0].id == vals[0].id]
+                            sized = len(defs) == 1 and T.norm(defs[0].value) == cum
+        chk.ob('C17.cumulative', f'{fi.qualname}', sized and n_fmt == 1, ctx.loc(fi, node) if node else fi.loc,
                f'{name}: a no-limit raise is written with the total chips the player has committed in the hand (-payoff), not the street amount',
-               got=[T.show(a) for a in amounts], want=T.show(CUMULATIVE))
-    # ACPC: fixed-limit raises carry no size; exhaustive over the two variants
+               want=T.show(cum))
+    # ACPC: fixed-limit raises carry no size; the two supported variants are both handled
     ft = None
     for n in ast.walk(acpc.node):
         if isinstance(n, ast.Match):
@@ -112,109 +142,168 @@ def run(chk, ctx) -> None:
         chk.ob('C17.letters', f'ACPCProtocolParser.{k}', pats.get(k) == w, ap.loc,
                'the parser reads the same letters the writers emit', got=pats.get(k), want=w)
     chk.floor('C17.letters', 13)
-    # parser: which method each pattern drives
     pf = ap.methods.get('_parse')
     if pf is None:
         raise AnalysisError('ACPCProtocolParser._parse vanished')
-    drive = {}
-    for n in ast.walk(pf.node):
-        if isinstance(n, ast.If) and isinstance(n.test, ast.NamedExpr):
-            src = ast.unparse(n.test.value)
-            for k in want:
-                if f'self.{k},' in src or f'self.{k})' in src:
-                    drive[k] = sorted({c.func.attr for s in n.body for c in ast.walk(s)
-                                       if isinstance(c, ast.Call) and isinstance(c.func, ast.Attribute) and isinstance(c.func.value, ast.Name) and c.func.value.id == 'state'})
+    parms = _parser_arms(pf.node)
+    # the state the parser drives: the local bound to self.game(...)
+    svs = [n.targets[0].id for n in walk_no_nested(pf.node) if isinstance(n, ast.Assign) and isinstance(n.targets[0], ast.Name)
+           and isinstance(n.value, ast.Call) and ast.unparse(n.value.func) == 'self.game']
+    if len(svs) != 1:
+        raise AnalysisError('ACPCProtocolParser._parse: the replayed state is not built by exactly one self.game(...) call')
+    st_name = svs[0]
+    drive = {k: sorted({c.func.attr for s in body for c in ast.walk(s) if isinstance(c, ast.Call) and isinstance(c.func, ast.Attribute)
+                        and isinstance(c.func.value, ast.Name) and c.func.value.id == st_name}) for k, (node, body) in parms.items() if k in want}
     want_d = {'FOLDING': ['fold'], 'CHECKING_OR_CALLING': ['check_or_call'], 'BETTING_OR_RAISING_TO': ['complete_bet_or_raise_to'],
               'BOARD_DEALING': ['burn_card', 'deal_board']}
     chk.ob('C17.letters', 'ACPCProtocolParser._parse:dispatch', drive == want_d, pf.loc,
            'each letter is replayed as the operation it was written for', got=drive, want=want_d)
-    # cumulative -> street conversion
-    facts = {'records_cumulative_before_subtracting': False, 'subtracts_previous_streets': False, 'baseline_moves_at_separator_only': False}
-    for n in ast.walk(pf.node):
-        if isinstance(n, ast.If) and isinstance(n.test, ast.Compare) and T.cond(n.test) == T.spec('amount is not None', boolean=True):
-            body = [s for s in n.body]
-            srcs = [stmt_text(s) for s in body]
-            facts['records_cumulative_before_subtracting'] = srcs[:1] == ['max_amount = amount']
-            facts['subtracts_previous_streets'] = 'amount -= previous_max_amount' in srcs and srcs.index('amount -= previous_max_amount') > 0
-    writes = [(n, _arm_of(pf.node, n)) for n in ast.walk(pf.node)
-              if isinstance(n, ast.Assign) and isinstance(n.targets[0], ast.Name) and n.targets[0].id == 'previous_max_amount']
-    arms = [a for _, a in writes]
-    facts['baseline_moves_at_separator_only'] = sorted(arms) == ['BOARD_DEALING', 'init'] and all(
-        ast.unparse(n.value) in ('0', 'max_amount') for n, _ in writes)
+    # cumulative -> street conversion (names bound by shape)
+    facts = {'records_cumulative_before_subtracting': False, 'subtracts_previous_streets': False, 'baseline_moves_at_separator_only': False,
+             'raise_is_made_to_the_street_amount': False}
+    bnode, bbody = parms.get('BETTING_OR_RAISING_TO', (None, []))
+    amount = maxv = prev = None
+    for n in [x for s in bbody for x in ast.walk(s)]:
+        if isinstance(n, ast.If):
+            b = m.bind(T.cond(n.test), 'amount is not None', boolean=True)
+            if not b:
+                continue
+            amount = b['amount']
+            stmts = n.body
+            for k, s in enumerate(stmts):
+                if isinstance(s, ast.Assign) and isinstance(s.targets[0], ast.Name) and isinstance(s.value, ast.Name) and s.value.id == amount:
+                    maxv = s.targets[0].id
+                    for s2 in stmts[k + 1:]:
+                        if isinstance(s2, ast.AugAssign) and isinstance(s2.op, ast.Sub) and isinstance(s2.target, ast.Name) and s2.target.id == amount \
+                                and isinstance(s2.value, ast.Name):
+                            prev = s2.value.id
+                            facts['records_cumulative_before_subtracting'] = True
+                            facts['subtracts_previous_streets'] = True
+    if amount:
+        facts['raise_is_made_to_the_street_amount'] = any(
+            isinstance(c, ast.Call) and isinstance(c.func, ast.Attribute) and c.func.attr == 'complete_bet_or_raise_to'
+            and len(c.args) == 1 and isinstance(c.args[0], ast.Name) and c.args[0].id == amount for s in bbody for c in ast.walk(s))
+    if prev and maxv:
+        writes = [(n, _arm_name(parms, n)) for n in walk_no_nested(pf.node)
+                  if isinstance(n, ast.Assign) and isinstance(n.targets[0], ast.Name) and n.targets[0].id == prev]
+        arms_w = sorted(a for _, a in writes)
+        facts['baseline_moves_at_separator_only'] = arms_w == ['BOARD_DEALING', 'init'] and all(
+            (isinstance(n.value, ast.Constant) and n.value.value == 0) or (isinstance(n.value, ast.Name) and n.value.id == maxv) for n, _ in writes)
     missing = [k for k, v in facts.items() if not v]
     chk.ob('C17.cumulative', 'ACPCProtocolParser._parse', not missing, pf.loc,
            'the parser converts the cumulative raise size back to a street raise-to by subtracting what was committed on earlier streets; '
            'that baseline is updated exactly when a street separator is read', got=f'missing: {missing}' if missing else 'ok')
     init = None
-    for n in ast.walk(pf.node):
-        if isinstance(n, ast.Assign) and isinstance(n.targets[0], ast.Name) and n.targets[0].id == 'max_amount' and 'blinds' in ast.unparse(n.value):
-            init = T.norm(n.value)
-    chk.ob('C17.cumulative', 'ACPCProtocolParser._parse:initial', init == T.spec('max(state.blinds_or_straddles)'), pf.loc,
+    if maxv:
+        for n in walk_no_nested(pf.node):
+            if isinstance(n, ast.Assign) and isinstance(n.targets[0], ast.Name) and n.targets[0].id == maxv and _arm_name(parms, n) == 'init':
+                init = T.norm(n.value)
+    chk.ob('C17.cumulative', 'ACPCProtocolParser._parse:initial', init == T.spec(f'max({st_name}.blinds_or_straddles)'), pf.loc,
            'before the first raise the largest commitment is the big blind', got=T.show(init) if init else None)
     # ------------------------------------------------------------- visibility
-    def hole_arm(fi):
-        for classes, node, test in isinstance_arms(fi.node):
-            if classes == ('HoleDealing',):
-                return node, test
-        return None, None
-    node, test = hole_arm(acpc)
-    ok = False
-    if node is not None:
-        inner = [s for s in node.body if isinstance(s, ast.If)]
-        ok = bool(inner) and T.cond(inner[0].test) == T.spec('operation.player_index == position', boolean=True) and len(node.body) == 1
-    chk.ob('C17.visibility', f'{acpc.qualname}:dealt', ok, acpc.loc, "ACPC: only the requested seat's dealt cards enter the match state")
-    node, test = hole_arm(plur)
-    ok = node is not None and not any(isinstance(s, ast.If) and 'position' in ast.unparse(s.test) for s in node.body) \
-        and 'raw_hole_cards[operation.player_index][i] = repr(card)' in ast.unparse(node)
-    chk.ob('C17.visibility', f'{plur.qualname}:dealt', ok, plur.loc, 'Pluribus: the dealt cards of every seat are written')
-    for fi in (acpc, plur):
-        ok = False
-        for classes, node, test in isinstance_arms(fi.node):
-            if classes == ('HoleCardsShowingOrMucking',):
-                src = ast.unparse(node)
-                ok = 'raw_hole_cards[operation.player_index][i] = repr(card)' in src and 'enumerate(operation.hole_cards)' in src and 'if card' in src
-        chk.ob('C17.visibility', f'{fi.qualname}:shown', ok, fi.loc, 'cards shown at showdown are written for whoever showed them, known cards only, in card order')
+    for fi, label in ((acpc, 'ACPC'), (plur, 'Pluribus')):
+        op = op_var(fi.node)
+        node, body, _ = arm_body(fi.node, op, 'HoleDealing')
+        stores = _card_stores(body, op)
+        if label == 'ACPC':
+            gated = [n for s in body for n in ast.walk(s) if isinstance(n, ast.If) and T.cond(n.test) == T.spec(f'{op}.player_index == position', boolean=True)]
+            inside = gated and all(any(x is st for g in gated for x in ast.walk(g)) for st, _ in stores)
+            ok = bool(stores) and bool(inside) and all(idx == ('name', 'position') for _, idx in stores)
+            chk.ob('C17.visibility', f'{fi.qualname}:dealt', ok, ctx.loc(fi, node) if node else fi.loc,
+                   "ACPC: only the requested seat's dealt cards enter the match state")
+        else:
+            ok = bool(stores) and all(idx == T.spec(f'{op}.player_index') for _, idx in stores) \
+                and not any(isinstance(n, ast.If) and 'player_index' in ast.unparse(n.test) for s in body for n in ast.walk(s))
+            chk.ob('C17.visibility', f'{fi.qualname}:dealt', ok, ctx.loc(fi, node) if node else fi.loc, 'Pluribus: the dealt cards of every seat are written')
+        node, body, _ = arm_body(fi.node, op, 'HoleCardsShowingOrMucking')
+        stores = _card_stores(body, op)
+        over = [n for s in body for n in ast.walk(s) if isinstance(n, ast.For) and T.norm(n.iter) == T.spec(f'enumerate({op}.hole_cards)')]
+        known = [n for s in body for n in ast.walk(s) if isinstance(n, ast.If) and isinstance(n.test, ast.Name)]
+        ok = bool(stores) and all(idx == T.spec(f'{op}.player_index') for _, idx in stores) and len(over) == 1 and bool(known)
+        chk.ob('C17.visibility', f'{fi.qualname}:shown', ok, ctx.loc(fi, node) if node else fi.loc,
+               'cards shown at showdown are written for whoever showed them, known cards only, in card order')
     ok = False
     for n in ast.walk(acpc.node):
-        if isinstance(n, ast.FunctionDef) and n.name == 'egress':
-            ok = any(isinstance(x, ast.Raise) for x in ast.walk(n)) and 'all(raw_hole_cards[position])' in ast.unparse(n)
+        if isinstance(n, ast.FunctionDef) and n is not acpc.node:
+            ifs = [x for x in ast.walk(n) if isinstance(x, ast.If) and any(isinstance(r, ast.Raise) for r in x.body)]
+            for x in ifs:
+                t = T.cond(x.test)
+                if m.eq(t, 'not all(cards[position])', boolean=True):
+                    ok = True
     chk.ob('C17.visibility', f'{acpc.qualname}:viewer_known', ok, acpc.loc, "ACPC: a match state is only emitted when the viewer's own cards are known")
     # order: board cards after '/', hole cards joined by '|'
     for fi in (acpc, plur):
-        src = ast.unparse(fi.node)
-        ok = "'|'.join(map(''.join, raw_hole_cards))" in src and "board_cards += '/' + ''.join(map(repr, operation.cards))" in src
-        chk.ob('C17.layout', f'{fi.qualname}:cards', ok, fi.loc, 'hole cards are joined seat by seat with `|`, each board street is prefixed by `/`')
+        op = op_var(fi.node)
+        j1 = m.exprs(fi.node, "'|'.join(map(''.join, cards))")
+        j2 = [n for n in ast.walk(fi.node) if isinstance(n, ast.AugAssign) and isinstance(n.op, ast.Add)
+              and T.norm(n.value) == T.spec(f"'/' + ''.join(map(repr, {op}.cards))")]
+        chk.ob('C17.layout', f'{fi.qualname}:cards', bool(j1) and len(j2) == 1, fi.loc,
+               'hole cards are joined seat by seat with `|`, each board street is prefixed by `/`')
     # ----------------------------------------------------------------- payoff
-    pay = None
-    for n in ast.walk(plur.node):
-        if isinstance(n, ast.Call) and isinstance(n.func, ast.Attribute) and n.func.attr == 'append' and ast.unparse(n.func.value) == 'raw_payoffs':
-            pay = T.norm(n.args[0])
-    chk.ob('C17.payoff', plur.qualname, pay == T.spec('finishing_stack - starting_stack'), plur.loc,
-           'Pluribus result field = finishing stack - starting stack per seat', got=T.show(pay) if pay else None)
-    zips = [T.norm(n.iter) for n in ast.walk(plur.node) if isinstance(n, ast.For) and 'finishing_stack' in ast.unparse(n.target)]
-    chk.ob('C17.payoff', f'{plur.qualname}:pairs', zips == [T.spec('zip(self.starting_stacks, finishing_stacks)')], plur.loc,
-           'starting and finishing stacks are paired seat by seat, in that order', got=[T.show(z) for z in zips])
+    ok = False
+    got = None
+    for loop in [n for n in ast.walk(plur.node) if isinstance(n, ast.For) and isinstance(n.target, ast.Tuple) and len(n.target.elts) == 2]:
+        it = T.norm(loop.iter)
+        if it[0] == 'call' and it[1] == 'zip' and len(it[2]) == 2 and it[2][0] == ('self', 'starting_stacks'):
+            s_name, f_name = (e.id for e in loop.target.elts)
+            for c in ast.walk(loop):
+                if isinstance(c, ast.Call) and isinstance(c.func, ast.Attribute) and c.func.attr == 'append' and c.args:
+                    got = T.norm(c.args[0])
+                    ok = got == T.spec(f'{f_name} - {s_name}')
+    chk.ob('C17.payoff', plur.qualname, ok, plur.loc,
+           'Pluribus result field = finishing stack - starting stack per seat (stacks paired seat by seat)', got=T.show(got) if got else None)
     # ------------------------------------------------------------------ gates
     want_g = {'ACPC_PROTOCOL_VARIANTS': frozenset({'FT', 'NT'}), 'PLURIBUS_PROTOCOL_VARIANTS': frozenset({'NT'})}
     for k, w in want_g.items():
         v = sev.class_attr('HandHistory', k)
         chk.ob('C17.gates', f'HandHistory.{k}', v == w, hh.loc, 'variants the protocol is defined for', got=sorted(v) if isinstance(v, frozenset) else v, want=sorted(w))
     for fi, k in ((acpc, 'ACPC_PROTOCOL_VARIANTS'), (plur, 'PLURIBUS_PROTOCOL_VARIANTS')):
-        first = fi.body[0]
-        ok = isinstance(first, ast.If) and T.cond(first.test) == T.spec(f'self.variant not in self.{k}', boolean=True) \
-            and any(isinstance(s, ast.Raise) for s in first.body)
+        gate = T.spec(f'self.variant not in self.{k}', boolean=True)
+        ok = False
+        for p in ctx.paths(fi, max_paths=400000) if False else []:
+            pass
+        for n in fi.body[:2]:
+            if isinstance(n, ast.If):
+                t = T.cond(n.test)
+                if t == gate and any(isinstance(s, ast.Raise) for s in n.body):
+                    ok = True
+                if t == T.mk_not(gate) and any(isinstance(s, ast.Raise) for s in n.orelse):
+                    ok = True
         chk.ob('C17.gates', fi.qualname, ok, fi.loc, 'a history of another variant is refused (ValueError), not mis-rendered')
-    # the parser only accepts terminal hands
-    ok = any(isinstance(n, ast.If) and T.cond(n.test) == T.spec('state.status', boolean=True) and any(isinstance(s, ast.Raise) for s in n.body)
+    ok = any(isinstance(n, ast.If) and ((T.cond(n.test) == T.spec(f'{st_name}.status', boolean=True) and any(isinstance(s, ast.Raise) for s in n.body))
+                                        or (T.cond(n.test) == T.spec(f'not {st_name}.status', boolean=True) and any(isinstance(s, ast.Raise) for s in n.orelse)))
              for n in ast.walk(pf.node))
     chk.ob('C17.gates', 'ACPCProtocolParser._parse:terminal', ok, pf.loc, 'a protocol line that does not end the hand is reported, not returned as a history')
 
 
-def _arm_of(fn, node):
+def _card_stores(body, op):
+    """[(assign node, player index term)] for ``X[<player>][i] = repr(card)`` in the statements"""
+    out = []
+    for s in body:
+        for n in ast.walk(s):
+            if isinstance(n, ast.Assign) and isinstance(n.targets[0], ast.Subscript) and isinstance(n.targets[0].value, ast.Subscript) \
+                    and isinstance(n.value, ast.Call) and isinstance(n.value.func, ast.Name) and n.value.func.id == 'repr':
+                out.append((n, T.norm(n.targets[0].value.slice)))
+    return out
+
+
+def _parser_arms(fn):
+    """pattern attribute -> (If node, body) for ``if/elif n := match(self.PATTERN, actions)`` (either polarity)"""
+    out = {}
     for n in ast.walk(fn):
-        if isinstance(n, ast.If) and isinstance(n.test, ast.NamedExpr) and any(m is node for s in n.body for m in ast.walk(s)):
-            src = ast.unparse(n.test.value)
-            for k in ('BOARD_DEALING', 'BETTING_OR_RAISING_TO', 'CHECKING_OR_CALLING', 'FOLDING', 'BLIND_POSTING'):
-                if f'self.{k}' in src:
-                    return k
+        if isinstance(n, ast.If):
+            t = n.test
+            neg = False
+            if isinstance(t, ast.UnaryOp) and isinstance(t.op, ast.Not):
+                t, neg = t.operand, True
+            if isinstance(t, ast.NamedExpr) and isinstance(t.value, ast.Call) and t.value.args and isinstance(t.value.args[0], ast.Attribute) \
+                    and isinstance(t.value.args[0].value, ast.Name) and t.value.args[0].value.id == 'self':
+                out[t.value.args[0].attr] = (n, n.orelse if neg else n.body)
+    return out
+
+
+def _arm_name(parms, node):
+    for k, (ifnode, body) in parms.items():
+        if any(m is node for s in body for m in ast.walk(s)):
+            return k
     return 'init'
